@@ -161,25 +161,29 @@ def plan_mode(tier, names):
     return [(n, 'fine', 1, 40, 1) if tier == 'quick' else (n, 'fine', 2, 300, 2) for n in names]
 
 
-def run(ctx, B, c01_only=False, mode=None, again=0, names=None):
+def run(ctx, B, c01_only=False, mode=None, again=0, names=None, starve0=False, names_starve0=None):
     """Run the il legs (all in parallel); one evidence leg per (program, back-end, grain) with the per-region point counts.
-    mode='tpwait' / again=K select the C06 / C16 variants of the two thread bodies (see c02_il.c)."""
+    mode='tpwait' / again=K select the C06 / C16 variants of the two thread bodies, starve0 the variant in which stream 0
+    never gets a task (see c02_il.c)."""
     os.environ['PARSEC_MCA_bind_threads'] = '0'
     byname = {x.name: x for x in B.progs}
     jobs = []
-    sfx = ('-tpwait' if mode == 'tpwait' else '') + ('-again%d' % again if again else '')
-    extra = (['--mode', mode] if mode else []) + (['--again', str(again)] if again else [])
-    for name, grain, bound, dl, share in (plan_mode(ctx.tier, names) if names else plan(ctx.tier, c01_only)):
-        if name not in byname:
-            continue
-        p = byname[name].prog
-        for be in BACKENDS:
-            jobs.append((scen_name(p, be, p.variants[0]) + ('-coarse' if grain == 'coarse' else '') + sfx, be, grain, bound, dl, share))
+    # starve0: False | True | 'both' (the normal variant and the one in which stream 0 never gets a task; names_starve0
+    # restricts the starved variant to some programs)
+    for st in ([False, True] if starve0 == 'both' else [bool(starve0)]):
+        sfx = ('-tpwait' if mode == 'tpwait' else '') + ('-starve0' if st else '') + ('-again%d' % again if again else '')
+        extra = (['--mode', mode] if mode else []) + (['--starve0'] if st else []) + (['--again', str(again)] if again else [])
+        for name, grain, bound, dl, share in (plan_mode(ctx.tier, names) if names else plan(ctx.tier, c01_only)):
+            if name not in byname or (st and names_starve0 and name not in names_starve0):
+                continue
+            p = byname[name].prog
+            for be in BACKENDS:
+                jobs.append((scen_name(p, be, p.variants[0]) + ('-coarse' if grain == 'coarse' else '') + sfx, be, grain, bound, dl, share, extra))
     tot = sum(j[5] for j in jobs) or 1
     jobs.sort(key=lambda j: -j[5])
 
     def one(j):
-        sc, be, grain, bound, dl, share = j
+        sc, be, grain, bound, dl, share, extra = j
         nw = max(1, int(round(share * vlib.NJOBS * 1.25 / tot)))
         args = ['--bound', str(bound), '--scenario', sc, '--jobs', str(nw), '--outdir', vlib.OUT, '--deadline', str(dl), '--prop', ctx.pid, '--grain', grain] + extra
         if c01_only:
@@ -235,6 +239,8 @@ def replay(ctx, path, obj):
     args = [B.exes[be], '--replay', path, '--prop', obj.get('property', ctx.pid), '--grain', 'coarse' if '-coarse' in sc else 'fine']
     if '-tpwait' in sc:
         args += ['--mode', 'tpwait']
+    if '-starve0' in sc:
+        args.append('--starve0')
     m = re.search(r'-again(\d+)', sc)
     if m:
         args += ['--again', m.group(1)]
